@@ -24,7 +24,8 @@
      item_wf       : bytes -> bool                      (parse_exact succeeds)
      skip_item     : bytes -> result (bytes * bytes)    (consumed prefix, rest): the delimiter
      parse_seq     : bytes -> result (list item)        (a CBOR sequence: items until the end)
-     building blocks: take_bytes, parse_n, parse_until_break, parse_pair, parse_chunk
+     building blocks: take_bytes, parse_n, parse_until_break, parse_pair, parse_chunk,
+       parse_after, parse_body (parse_item (S f) = parse_body (parse_item f))
    Printing (shortest heads; definite/indefinite and chunking exactly as recorded in the item)
      encode_item   : item -> bytes
      encode_items  : list item -> bytes ;  encode_pairs : list (item*item) -> bytes
@@ -126,50 +127,58 @@ Definition parse_chunk (m : N) : parser bytes := fun bs =>
   | _ => Err
   end.
 
-Fixpoint parse_item (fuel : nat) (bs : bytes) : result (item * bytes) :=
-  match fuel with
-  | O => OutOfFuel
-  | S f =>
-    match bs with
-    | [] => Err
-    | b0 :: _ =>
-      match decode_head bs with
-      | None => Err
-      | Some (m, a, r) =>
-        match major_of m, a with
-        | Some MUint, Arg n => Ok (IUint n, r)
-        | Some MNint, Arg n => Ok (INint n, r)
-        | Some MBytes, Arg n => let* '(p, r') := take_bytes n r in Ok (IBytes p, r')
-        | Some MBytes, Indef =>
-            let* '(cs, r') := parse_until_break (parse_chunk 2) (length r) r in Ok (IBytesChunked cs, r')
-        | Some MText, Arg n => let* '(p, r') := take_bytes n r in Ok (IText p, r')
-        | Some MText, Indef =>
-            let* '(cs, r') := parse_until_break (parse_chunk 3) (length r) r in Ok (ITextChunked cs, r')
-        | Some MArray, Arg n =>
-            if n <=? len r then
-              let* '(xs, r') := parse_n (parse_item f) (N.to_nat n) r in Ok (IArray true xs, r')
-            else Err
-        | Some MArray, Indef =>
-            let* '(xs, r') := parse_until_break (parse_item f) (length r) r in Ok (IArray false xs, r')
-        | Some MMap, Arg n =>
-            if n <=? len r then
-              let* '(kvs, r') := parse_n (parse_pair (parse_item f)) (N.to_nat n) r in Ok (IMap true kvs, r')
-            else Err
-        | Some MMap, Indef =>
-            let* '(kvs, r') := parse_until_break (parse_pair (parse_item f)) (length r) r in
-            Ok (IMap false kvs, r')
-        | Some MTag, Arg t => let* '(x, r') := parse_item f r in Ok (ITag t x, r')
-        | Some MSimple, Arg n =>
-            let ai := b0 mod 32 in
-            if ai <? 24 then Ok (ISimple n, r)
-            else if ai =? 24 then (if n <? 32 then Err else Ok (ISimple n, r))
-            else if ai =? 25 then Ok (IFloat F16 n, r)
-            else if ai =? 26 then Ok (IFloat F32 n, r)
-            else Ok (IFloat F64 n, r)
-        | _, _ => Err     (* indefinite marker on major 0,1,6; break (0xff) where an item is expected; major > 7 *)
-        end
-      end
+(* what follows a decoded head: b0 = initial byte, m = major type, a = argument, r = bytes after the head;
+   [p] parses nested items (one nesting level deeper) *)
+Definition parse_after (p : parser item) (b0 m : N) (a : harg) (r : bytes) : result (item * bytes) :=
+  match major_of m, a with
+  | Some MUint, Arg n => Ok (IUint n, r)
+  | Some MNint, Arg n => Ok (INint n, r)
+  | Some MBytes, Arg n => let* '(s, r') := take_bytes n r in Ok (IBytes s, r')
+  | Some MBytes, Indef =>
+      let* '(cs, r') := parse_until_break (parse_chunk 2) (length r) r in Ok (IBytesChunked cs, r')
+  | Some MText, Arg n => let* '(s, r') := take_bytes n r in Ok (IText s, r')
+  | Some MText, Indef =>
+      let* '(cs, r') := parse_until_break (parse_chunk 3) (length r) r in Ok (ITextChunked cs, r')
+  | Some MArray, Arg n =>
+      (* every element takes at least one byte: a count above the remaining length is a truncation
+         (and is rejected before the count is turned into a nat) *)
+      if n <=? len r then
+        let* '(xs, r') := parse_n p (N.to_nat n) r in Ok (IArray true xs, r')
+      else Err
+  | Some MArray, Indef =>
+      let* '(xs, r') := parse_until_break p (length r) r in Ok (IArray false xs, r')
+  | Some MMap, Arg n =>
+      if n <=? len r then
+        let* '(kvs, r') := parse_n (parse_pair p) (N.to_nat n) r in Ok (IMap true kvs, r')
+      else Err
+  | Some MMap, Indef =>
+      let* '(kvs, r') := parse_until_break (parse_pair p) (length r) r in Ok (IMap false kvs, r')
+  | Some MTag, Arg t => let* '(x, r') := p r in Ok (ITag t x, r')
+  | Some MSimple, Arg n =>
+      let ai := b0 mod 32 in
+      if ai <? 24 then Ok (ISimple n, r)
+      else if ai =? 24 then (if n <? 32 then Err else Ok (ISimple n, r))
+      else if ai =? 25 then Ok (IFloat F16 n, r)
+      else if ai =? 26 then Ok (IFloat F32 n, r)
+      else Ok (IFloat F64 n, r)
+  | _, _ => Err     (* indefinite marker on major 0,1,6; break (0xff) where an item is expected; major > 7 *)
+  end.
+
+(* one item, nested items parsed by [p] *)
+Definition parse_body (p : parser item) : parser item := fun bs =>
+  match bs with
+  | [] => Err
+  | b0 :: _ =>
+    match decode_head bs with
+    | None => Err
+    | Some (m, a, r) => parse_after p b0 m a r
     end
+  end.
+
+Fixpoint parse_item (fuel : nat) : parser item :=
+  match fuel with
+  | O => fun _ => OutOfFuel
+  | S f => parse_body (parse_item f)
   end.
 
 Definition default_fuel (bs : bytes) : nat := S (length bs).
